@@ -1,7 +1,7 @@
 (* C09 - Flatten removes all hierarchy and preserves leaf-level connectivity. Property theorems only. *)
-From Coq Require Import List.
+From Coq Require Import List NArith.
 From SV Require Import Base.Base IR.State IR.NS IR.Ops Xform.Clone Xform.Xform
-  Proofs.Inv1a Proofs.Inv2a Proofs.InvP Proofs.InvW Proofs.XformInv.
+  Proofs.Inv1a Proofs.Inv2a Proofs.InvP Proofs.InvW Proofs.XformInv Proofs.CloneFull Proofs.FlatLeaf.
 
 (* "the netlist stays well-formed": flatten is a composition of public IR calls, so whatever it
    moves, every container keeps listing exactly the elements that name it as parent, once ... *)
@@ -23,10 +23,51 @@ Theorem C09_wellformed_preserved : forall fuel x n,
 Proof. exact flatten_inv. Qed.
 Print Assumptions C09_wellformed_preserved.
 
-(* Full statement (one leaf per leaf path named by the joined path, endpoint partition equal):
-   checked on every run by the correspondence of the flatten model with the implementation and by
-   the elaboration oracle; the Coq proof of the connectivity clause is not finished. *)
+(* "no hierarchical instance remains": in every state reachable by editing calls, after a completed
+   flatten every instance left in the top definition references a leaf definition - one with no child
+   instances and no cables. Proofs/FlatLeaf.v: along the walk every child of the top definition is
+   still queued, or references a leaf, or is scheduled for removal; containers other than the top
+   definition only lose members, so a leaf stays a leaf; the scheduled ones are removed at the end. *)
+Theorem C09_no_hierarchy_left : forall ops u f fuel n t topd x',
+  let s := run ops init in
+  top s n = Some t -> iref s t = Some topd -> flatten fuel (mkX s u f) n = (x', None) ->
+  forall c, In c (kids (st x') RChildren topd) ->
+  exists e, iref (st x') c = Some e /\ is_leaf_def (st x') e = true.
+Proof.
+  intros ops u f fuel n t topd x' s Ht Hr E c Hc.
+  apply (flatten_leaves fuel (mkX s u f) n x' t topd (reachable_uf ops) Ht Hr E c Hc).
+Qed.
+Print Assumptions C09_no_hierarchy_left.
+
+(* the same from any state satisfying the structural invariants *)
+Theorem C09_no_hierarchy_left_from : forall fuel x n x' t topd,
+  UF (st x) -> top (st x) n = Some t -> iref (st x) t = Some topd -> flatten fuel x n = (x', None) ->
+  forall c, In c (kids (st x') RChildren topd) -> Leafy (st x') c.
+Proof. exact flatten_leaves. Qed.
+Print Assumptions C09_no_hierarchy_left_from.
+
+(* The flatness clause as first written (no hypothesis on the start state); proved above for every
+   reachable state. The remaining clauses (one leaf per leaf path named by the joined path, endpoint
+   partition equal) are checked on every run by the correspondence of the flatten model with the
+   implementation and by the elaboration oracle. *)
 Definition C09_full : Prop := forall fuel x n x' t d,
   flatten fuel x n = (x', None) -> top (st x') n = Some t -> iref (st x') t = Some d ->
   forall c, In c (kids (st x') RChildren d) ->
   exists e, iref (st x') c = Some e /\ is_leaf_def (st x') e = true.
+
+(* non-vacuity: a top cell with one instance "a" of a cell holding a leaf instance "i" and a cable "c";
+   flatten completes, the hierarchical instance (10) is gone, the leaf (6) sits in the top definition
+   under the joined name "a/i" next to the cable that came up with it *)
+Example C09_sample :
+  let ops := (ONew KNetlist None nil :: OCreate RLibs 0 None nil 0 None :: OCreate RDefs 1 (Some (76%N :: nil)) nil 0 None ::
+              OCreate RPorts 2 (Some (112%N :: nil)) nil 1 None :: OCreate RDefs 1 (Some (77%N :: nil)) nil 0 None ::
+              OCreate RChildren 5 (Some (105%N :: nil)) nil 0 (Some 2) :: OCreate RCables 5 (Some (99%N :: nil)) nil 1 None ::
+              OConnect 8 (POut 6 4) None :: OCreate RDefs 1 (Some (84%N :: nil)) nil 0 None ::
+              OCreate RChildren 9 (Some (97%N :: nil)) nil 0 (Some 5) :: OSetTop 0 (TopDef 9) :: nil) in
+  let s := run ops init in
+  let r := flatten 50 (mkX s 0 0) 0 in
+  let s' := st (fst r) in
+  snd r = None /\ top s 0 = Some 11 /\ iref s 11 = Some 9 /\ kids s RChildren 9 = (10 :: nil) /\
+  kids s' RChildren 9 = (6 :: nil) /\ iref s' 6 = Some 2 /\ is_leaf_def s' 2 = true /\
+  get_str s' 6 str_NAME = Some (97%N :: 47%N :: 105%N :: nil) /\ kids s' RCables 9 = (7 :: nil).
+Proof. vm_compute. repeat split. Qed.
